@@ -75,12 +75,24 @@ func mwu(c *Case, x1, x2 []float64, alt int) (call, error) {
 	oe, ot := stats.MannWhitneyExactLimit, stats.MannWhitneyTiesExactLimit
 	stats.MannWhitneyExactLimit, stats.MannWhitneyTiesExactLimit = c.ExactLimit, c.TiesLimit
 	defer func() { stats.MannWhitneyExactLimit, stats.MannWhitneyTiesExactLimit = oe, ot }()
-	// give the slices spare capacity: an append-based "copy" that aliases would show
-	a1 := append(make([]float64, 0, len(x1)+3), x1...)
-	a2 := append(make([]float64, 0, len(x2)+3), x2...)
+	// The two samples are handed over as two windows of ONE backing array, a small gap apart
+	// (two stretches of one series), with sentinel-filled spare capacity behind: x1's capacity
+	// runs over the gap and x2, so an append-based "copy" of x1 lands in x2; nothing in the
+	// whole array may change.
+	const sentinel = -7.25e77
+	n1, n2 := len(x1), len(x2)
+	gap := 1
+	buf := make([]float64, n1+gap+n2+2*(n1+n2)+4)
+	for i := range buf {
+		buf[i] = sentinel
+	}
+	copy(buf, x1)
+	copy(buf[n1+gap:], x2)
+	before := append([]float64(nil), buf...)
+	a1, a2 := buf[:n1], buf[n1+gap:n1+gap+n2]
 	r, err := stats.MannWhitneyUTest(a1, a2, stats.LocationHypothesis(alt))
-	if !bitsEqual(a1, x1) || !bitsEqual(a2, x2) {
-		return call{}, fmt.Errorf("arguments modified by the call (alt=%d): x1 %v -> %v, x2 %v -> %v", alt, x1, a1, x2, a2)
+	if !bitsEqual(buf, before) {
+		return call{}, fmt.Errorf("arguments (or the memory behind them) modified by the call (alt=%d): x1 %v -> %v, x2 %v -> %v, whole backing array %v -> %v", alt, x1, a1, x2, a2, before, buf)
 	}
 	return call{r, err}, nil
 }
